@@ -16,7 +16,7 @@ EXPLANATION = (
     'finite list.  Does not decide the behaviour for each concrete errno or pairs of '
     'faults beyond these edges.')
 ASSUMPTIONS = ['A1-A6; faults are modelled as OSError raised by a primitive of the table']
-MINIMUM = {'R17.1': 1, 'R17.2': 6, 'R17.3': 2, 'R17.4': 1}
+MINIMUM = {'R17.1': 1, 'R17.2': 6, 'R17.3': 2, 'R17.4': 1, 'R17.5': 1}
 
 
 def errno_allow(c, pol):
@@ -129,6 +129,18 @@ def check(ctx):
                            'and %s' % (x.data['prim'],
                                        'another name is tried' if o.id in leak else
                                        'the run ends without removing it'))
+    # ---- R17.5 fault handling deletes nothing but the reservation
+    infos = set()
+    for o in r.opens:
+        infos |= alt_ids(r.info_of(o))
+    for d in r.deletes:
+        in_handler = last_dominating(b, d.id, 'handler') is not None
+        ctx.ob('R17.5', 'error handling deletes only the reserved .trashinfo',
+               alt_ids(d.data['roles']['path']) <= infos, node=d,
+               message='%strash-put deletes %s, which is not the .trashinfo it reserved: after '
+                       'a partial copy+delete of a cross-device move this destroys the only '
+                       'remaining copy' % ('in an error handler ' if in_handler else '',
+                                           short(d.data['roles']['path'], 80)))
     # ---- R17.4
     for cl in r.candidate_loops:
         it = cl.data.get('iter')
